@@ -595,7 +595,64 @@ def empty_source_cases(ctx):
                         ctx.ok(('empty-source', name, tuple(kw)), True)
 
 
+# ---- literal tokens ('0x..', '0b..', '0o..') with a character that is not a digit of their base --------------------------------
+LITERALS = {'0x': ('0123456789abcdefABCDEF', 4, 'gzGk-.!'), '0b': ('01', 1, '2a9-.'), '0o': ('01234567', 3, '89a-.')}     # (a repeated prefix inside the digits is tolerated by the library: not used as a bad character)
+
+
+def gen_literal(ctx):
+    rng = ctx.rng
+    pre = rng.choice(list(LITERALS))
+    digits, _, bad = LITERALS[pre]
+    body = ''.join(rng.choice(digits) for _ in range(rng.choice([1, 2, 3, 8, 17])))
+    where = rng.choice(['none', 'none', 'end', 'end', 'middle', 'start'])
+    if where != 'none':
+        ch = rng.choice(bad)
+        i = {'end': len(body), 'middle': len(body) // 2, 'start': 0}[where]
+        body = body[:i] + ch + body[i:]
+    spell = rng.choice([pre, pre.upper() if pre != '0x' or True else pre, pre])
+    lit = spell + body
+    if rng.random() < 0.2:
+        lit = rng.choice([' ' + lit, lit + ' ', lit.replace(body[:1], body[:1] + '_', 1)])
+    return {'kind': 'literal', 'pre': pre, 'lit': lit, 'where': where, 'cls': rng.choice(util.CLASS_NAMES), 'mcls': rng.choice(util.MUTABLE),
+            'via': rng.choice(['ctor', 'fromstring', 'append', 'iadd', 'add', 'pack', 'pack-second', 'eq', 'find', 'ctor-second-token', 'prepend', 'insert', 'Array-trailing'])}
+
+
+def judge_literal(ctx, case):
+    pre, lit, via = case['pre'], case['lit'], case['via']
+    digits, width, _ = LITERALS[pre]
+    body = lit.strip()[2:].replace('_', '')
+    ok = bool(body) and all(ch in digits for ch in body)
+    exp = ''.join(format(int(ch, 16 if pre == '0x' else 2 if pre == '0b' else 8), f'0{width}b') for ch in body) if ok else None
+    cls, mcls = CLASSES[case['cls']], CLASSES[case['mcls']]
+    with util.options(lsb0=False):
+        target = mcls('0b101')
+        f = {'ctor': lambda: B(cls(lit)), 'fromstring': lambda: B(cls.fromstring(lit)), 'append': lambda: (target.append(lit), B(target)[3:])[1],
+             'iadd': lambda: (target.__iadd__(lit), B(target)[3:])[1], 'prepend': lambda: (target.prepend(lit), B(target)[:-3])[1],
+             'insert': lambda: (target.insert(lit, 1), B(target)[1:-2])[1], 'add': lambda: B(Bits('0b101') + lit)[3:], 'pack': lambda: B(pack(lit)),
+             'pack-second': lambda: B(pack(f'uint:8, {lit}', 3))[8:], 'eq': lambda: (exp if (cls(bin=exp) if exp else cls()) == lit else 'not-equal') if ok else (Bits('0b1') == lit),
+             'find': lambda: exp if Bits(bin=exp or '1').find(lit) == (0,) else 'not-found', 'ctor-second-token': lambda: B(cls(f'0b1, {lit}'))[1:],
+             'Array-trailing': lambda: B(Array('u8', [1], trailing_bits=lit).data)[8:]}[via]
+        got = call(f)
+        ctx.op('literal:' + via, 'ok' if got[0] == 'ok' else type(got[1]).__name__)
+        ic = f'{pre},{"valid" if ok else "bad-char-" + case["where"]}'
+        if ok:
+            if got == ('ok', exp):
+                ctx.ok(('literal', pre, via, 'valid'))
+            else:
+                ctx.mismatch(f'C15|literal:{via}|{ic}|' + ('rejected' if got[0] == 'exc' else 'wrong-bits'), case, f'{lit!r}: {got[1]!s:.80} expected {exp[:60]}')
+        elif got[0] == 'ok':
+            ctx.mismatch(f'C15|literal:{via}|{ic}|accepted', case, f'{lit!r} gave {got[1]!s:.60}')
+        elif not isinstance(got[1], ValueError):
+            ctx.mismatch(f'C15|literal:{via}|{ic}|wrong-exc:{type(got[1]).__name__}', case, f'{got[1]!s:.80}')
+        elif B(target) != '101':
+            ctx.mismatch(f'C15|literal:{via}|{ic}|target-changed-by-rejected-literal', case, B(target)[:40])
+        else:
+            ctx.ok(('literal', pre, via, case['where']), True)
+
+
 def run(ctx):
+    for i in range(ctx.scale(6000, 80000)):
+        ctx.run_case(judge_literal, gen_literal(ctx))
     if ctx.shard == 0:
         empty_source_cases(ctx)
     for i in range(ctx.scale(8000, 100000)):
@@ -620,7 +677,9 @@ def run(ctx):
 
 
 def replay(ctx, case):
-    if case.get('kind') == 'window':
+    if case.get('kind') == 'literal':
+        ctx.run_case(judge_literal, case)
+    elif case.get('kind') == 'window':
         ctx.run_case(judge_window, case)
     elif case.get('kind') == 'endian-prop':
         endian_prop_nolength(ctx)
